@@ -143,7 +143,10 @@ def cropped_row_slices(rep, prog, rule):
     for f in sorted(prog.fns.values(), key=lambda x: x.id):
         if f.kind != "closure":
             continue
-        sites = [c for c in f.calls() if "get_unchecked" in c.name]
+        sites = [c for c in f.calls() if "get_unchecked" in c.name or
+                 ((c.name.endswith("Index::index") or c.name.endswith("IndexMut::index_mut"))
+                  and len(c.args) == 2 and "ops::Range" in (f.local_ty(c.args[1][1][0])
+                                                             if c.args[1][0] in ("c", "m") else ""))]
         if not sites or not (f.file.endswith("typed_cropped_image.rs") or
                              "iter_cropped_rows" in f.name):
             continue
@@ -163,6 +166,14 @@ def cropped_row_slices(rep, prog, rule):
             n += 1
             key = "%s" % parent.name
             rng = sym.operand(c.args[1])
+            if rng[0] == "agg" and str(rng[2]).endswith("ops::range::RangeFrom"):
+                # row[left..]: the slice runs to the end of the parent's row
+                rep.bad(rule, key + "|open-ended", c.at,
+                        "column slice row[%s ..] has no upper bound: the row handed out is the rest of "
+                        "the parent's row, longer than the view's width unless the crop is flush "
+                        "right (kernels that take their tails from the source row then process "
+                        "other pixels than for an owned copy)" % fmt(rng[4][0])[:60])
+                continue
             if cap is None or rng[0] != "agg" or not rng[2].endswith("ops::range::Range"):
                 rep.unk(rule, key, c.at, "slice argument %s" % fmt(rng)[:100])
                 continue
